@@ -3,6 +3,8 @@ package engine
 import (
 	"encoding/json"
 	"fmt"
+	"os"
+	"path/filepath"
 	"sort"
 	"strings"
 
@@ -12,6 +14,10 @@ import (
 // RunProperty: generate (corpus first), run the cases on real nodes, judge them with the property's oracles and
 // write the model cases.
 func RunProperty(c *Ctx, or Oracles, cases []*Case, rule string) error {
+	if os.Getenv("VERIF_DUMP_CASES") != "" {
+		js, _ := json.Marshal(cases)
+		os.WriteFile(filepath.Join(c.Out, "all_cases.json"), js, 0644)
+	}
 	res, err := RunAll(c.Prop, cases)
 	if err != nil {
 		return err
